@@ -53,10 +53,13 @@ def run_spaces(fail_at: Optional[int], nruns: int) -> Dict[str, dict]:
                                                            {"mode": "combinatorial", "context": {"factor": [3.0, 4.0][: max(1, nruns - 1)]}}]},
         "sweepctx": {"blocks": [{"mode": "by_position", "context": {"value": vals, "a": a, "ts": [[1.0, 2.0] if i % 2 == 0 else [3.0] for i in range(nruns)]}}]},
         "csv": {"blocks": [{"mode": "by_position", "context": {"a": a}, "source": {"format": "csv", "path": "runs.csv", "select": ["value", "factor"]}}]},
+        # unusual-but-legal values: non-ASCII strings, a key with a dot, booleans and nulls ride along in the run context
+        "unicode": {"blocks": [{"mode": "by_position", "context": {"value": vals, "a": a, "label": ["caf\u00e9", "na\u00efve \u00fc", "\u65e5\u672c"][:nruns] + ["x"] * max(0, nruns - 3),
+                                                                  "opt.flag": [True, None, False][:nruns] + [True] * max(0, nruns - 3)}}]},
     }
 
 
-COMPAT = {"plain": ["zip", "two-blocks", "product", "csv"], "two": ["two-blocks", "product", "csv"], "sweep": ["sweepctx"]}
+COMPAT = {"plain": ["zip", "two-blocks", "product", "csv", "unicode"], "two": ["two-blocks", "product", "csv"], "sweep": ["sweepctx"]}
 
 
 def plan_of(rs: dict, scratch: str) -> List[dict]:
@@ -251,7 +254,7 @@ def launch_ids(pipe: str, rs: dict, scratch: str, extra: List[str], csv_variant:
 def judge_ids(scratch: str, tier: str) -> Tuple[int, List[Tuple[str, str, dict]]]:
     out: List[Tuple[str, str, dict]] = []
     n_eval = 0
-    for pipe, rsname in [("plain", "zip"), ("plain", "csv"), ("two", "product"), ("plain", "two-blocks")]:
+    for pipe, rsname in [("plain", "zip"), ("plain", "csv"), ("two", "product"), ("plain", "two-blocks"), ("plain", "unicode")]:
         rs = run_spaces(None, 3)[rsname]
         case = {"kind": "ids", "pipe": pipe, "rs": rsname}
 
